@@ -110,7 +110,7 @@ func (g *Generator) generateArgumentsForMethod(obj *tlparser.Method) []jen.Code 
 	items := make([]jen.Code, 0)
 
 	for i, p := range obj.Parameters {
-		item := jen.Id(goify(p.Name, false))
+		item := jen.Id(methodArgumentName(p.Name))
 		if i == len(obj.Parameters)-1 || p.Type != obj.Parameters[i+1].Type || p.IsVector != obj.Parameters[i+1].IsVector {
 			if p.Type == "bitflags" {
 				continue // ну а зачем?
@@ -139,8 +139,29 @@ func (g *Generator) generateMethodArgumentForMakingRequest(obj *tlparser.Method)
 			continue // ну а зачем?
 		}
 
-		dict[jen.Id(goify(p.Name, true))] = jen.Id(goify(p.Name, false))
+		dict[jen.Id(goify(p.Name, true))] = jen.Id(methodArgumentName(p.Name))
 	}
 
 	return jen.Op("&").Id(goify(obj.Name, true) + "Params").Values(dict)
+}
+
+// identifiers which can't be used as name of method argument: go keywords, imported packages, and variables of
+// generated method itself
+var reservedArgumentNames = map[string]string{
+	"errors": "errs",
+	"break": "", "case": "", "chan": "", "const": "", "continue": "", "default": "", "defer": "", "else": "",
+	"fallthrough": "", "for": "", "func": "", "go": "", "goto": "", "if": "", "import": "", "interface": "",
+	"map": "", "package": "", "range": "", "return": "", "select": "", "struct": "", "switch": "", "type": "",
+	"var": "", "reflect": "", "tl": "", "c": "", "err": "", "resp": "", "ok": "", "responseData": "",
+}
+
+func methodArgumentName(paramName string) string {
+	name := goify(paramName, false)
+	if replacement, reserved := reservedArgumentNames[name]; reserved {
+		if replacement != "" {
+			return replacement
+		}
+		return name + "Arg"
+	}
+	return name
 }
